@@ -148,6 +148,14 @@ end DL.CF
 
 namespace DL.CF
 
+theorem stmtEnd_stops {de : Bool} {info : Info} {p : Nat} (h : stopsEnd (stmtEnd de info p) = true) :
+    stopsEnd (info.endAt p) = true := by
+  cases de <;> simp_all [stmtEnd]
+
+theorem stmtEnd_forced {de : Bool} {info : Info} {p : Nat} (h : isForcedEnd (stmtEnd de info p) = true) :
+    isForcedEnd (info.endAt p) = true ∧ stmtEnd de info p = info.endAt p := by
+  cases de <;> simp_all [stmtEnd]
+
 theorem ifJoin_eq (p : Nat) (cr ar : Option End) (a : A) :
     ∃ e, ifJoin p cr ar a = markAsEnd p e a ∧
       (stopsEnd (some e) = true → stopsEnd cr = true ∧ stopsEnd ar = true) := by
@@ -170,7 +178,7 @@ theorem if_some_ok (live : Bool) (p : Nat) (test : Kids) (c al : Stmt) (a : A) (
       (let a1 := visitKids test (flagA a p .other)
        let a2 := withChild .ifK c.pos (fun x => sobTail c (visitStmt c x)) a1
        let a3 := withChild .ifK al.pos (fun x => sobTail al (visitStmt al x)) a2
-       ifJoin p (a2.info.endAt c.pos) (a3.info.endAt al.pos) a3) := by simp [visitStmt, flagA]
+       ifJoin p (stmtEnd c.isDeclOrExpr a2.info c.pos) (stmtEnd al.isDeclOrExpr a3.info al.pos) a3) := by simp [visitStmt, flagA]
   rw [hv]
   simp only []
   generalize visitKids test (flagA a p .other) = a1 at hs1 ⊢
@@ -202,11 +210,11 @@ theorem if_some_ok (live : Bool) (p : Nat) (test : Kids) (c al : Stmt) (a : A) (
   rw [withChild_if] at ha3
   obtain ⟨hi3, he3, hb3, hc3, hmb3, hmc3, hfb3⟩ := ifChild live al a2 _ a3 h2 hfb2 ha3.symm
   generalize sobTail al (visitStmt al (childA .ifK a2)) = al' at h2 hi3
-  have hcr : stopsEnd (a2.info.endAt c.pos) = true → (live && (c.compl []).n) = false := by
-    intro h; rw [hi2] at h; exact h1.p4 h
-  have har : stopsEnd (a3.info.endAt al.pos) = true → (live && (al.compl []).n) = false := by
-    intro h; rw [hi3] at h; exact h2.p4 h
-  obtain ⟨e, hje, hjs⟩ := ifJoin_eq p (a2.info.endAt c.pos) (a3.info.endAt al.pos) a3
+  have hcr : stopsEnd (stmtEnd c.isDeclOrExpr a2.info c.pos) = true → (live && (c.compl []).n) = false := by
+    intro h; have h := stmtEnd_stops h; rw [hi2] at h; exact h1.p4 h
+  have har : stopsEnd (stmtEnd al.isDeclOrExpr a3.info al.pos) = true → (live && (al.compl []).n) = false := by
+    intro h; have h := stmtEnd_stops h; rw [hi3] at h; exact h2.p4 h
+  obtain ⟨e, hje, hjs⟩ := ifJoin_eq p (stmtEnd c.isDeclOrExpr a2.info c.pos) (stmtEnd al.isDeclOrExpr a3.info al.pos) a3
   rw [hje]
   have hn : (Stmt.compl [] (.ifS p test c (some al))).n = ((c.compl []).n || (al.compl []).n) := by simp [Stmt.compl]
   have hstop : stopsEnd a3.sc.end_ = true ∨ stopsEnd (some e) = true →
